@@ -1,4 +1,820 @@
-//! C04 — stub, not built yet.
+//! C04 — bit-string operations depend only on the bit sequence, never on how it is stored.
+//!
+//! Correspondence: one request line = one operation *sequence* over a pool of handles
+//! (`C04 new 1234 ; read 0 8 ; drop 0 ; …`); the answer lists, after every operation, the operation's
+//! result and `slot:start:len:bits(hex)` of every live handle (see lean/XehModel/Driver/C04.lean).
+//!
+//! Oracle (implementation only):
+//!  (a) an independent `Vec<bool>` reference per handle, compared with the real API after every
+//!      operation (result of the operation AND the content of every other live handle — operands and
+//!      bystanders must not change);
+//!  (b) representation independence directly: the same logical value built at 8 alignments × 6
+//!      ownership situations must answer every query identically and combine identically.
 use crate::Ctx;
+use xeh::bitstr::*;
 
-pub fn run(_ctx: &mut Ctx) {}
+pub fn pack_hex(bits: &[bool]) -> String {
+    let mut s = String::new();
+    for ch in bits.chunks(4) {
+        let mut v = 0u32;
+        for i in 0..4 {
+            v = (v << 1) | (*ch.get(i).unwrap_or(&false) as u32);
+        }
+        s.push(std::char::from_digit(v, 16).unwrap());
+    }
+    s
+}
+
+pub fn hex_bytes(b: &[u8]) -> String {
+    if b.is_empty() {
+        "-".into()
+    } else {
+        crate::canon::hex(b)
+    }
+}
+
+pub fn bits_of_bytes(b: &[u8]) -> Vec<bool> {
+    let mut v = Vec::with_capacity(b.len() * 8);
+    for x in b {
+        for i in (0..8).rev() {
+            v.push((x >> i) & 1 == 1);
+        }
+    }
+    v
+}
+
+pub fn impl_bits(bs: &Bitstr) -> Vec<bool> {
+    bs.bits().map(|b| b == 1).collect()
+}
+
+// ---------- the reference: plain bit vectors ----------
+
+pub fn ref_be(bits: &[bool]) -> u128 {
+    let mut acc = 0u128;
+    for b in bits {
+        acc = (acc << 1) | (*b as u128);
+    }
+    acc
+}
+
+pub fn ref_le(bits: &[bool]) -> u128 {
+    let mut acc = 0u128;
+    for (k, ch) in bits.chunks(8).enumerate() {
+        if 8 * k < 128 {
+            acc |= ref_be(ch) << (8 * k);
+        }
+    }
+    acc
+}
+
+pub fn ref_uint(bits: &[bool], big: bool) -> u128 {
+    if big { ref_be(bits) } else { ref_le(bits) }
+}
+
+pub fn ref_int(bits: &[bool], big: bool) -> i128 {
+    let u = ref_uint(bits, big);
+    let n = bits.len();
+    if n == 0 {
+        0
+    } else if n >= 128 {
+        u as i128
+    } else {
+        ((u << (128 - n)) as i128) >> (128 - n)
+    }
+}
+
+fn ref_groups(bits: &[bool]) -> Vec<(u8, usize)> {
+    bits.chunks(8).map(|c| (ref_be(c) as u8, c.len())).collect()
+}
+
+fn ref_hex(bits: &[bool]) -> String {
+    let mut s = String::new();
+    for (v, n) in ref_groups(bits) {
+        if n > 4 {
+            s.push(std::char::from_digit((v >> 4) as u32, 16).unwrap());
+        }
+        s.push(std::char::from_digit((v & 15) as u32, 16).unwrap());
+    }
+    s
+}
+
+fn ref_pad(bits: &[bool]) -> Vec<u8> {
+    ref_groups(bits).iter().map(|g| g.0).collect()
+}
+
+fn ref_float(bits: &[bool], k: usize, big: bool) -> u64 {
+    let mut buf = ref_pad(bits);
+    buf.resize(buf.len().max(k), 0);
+    buf.truncate(k);
+    if !big {
+        buf.reverse();
+    }
+    buf.iter().fold(0u64, |a, b| (a << 8) | *b as u64)
+}
+
+fn opt_bytes(o: Option<Vec<u8>>) -> String {
+    match o {
+        None => "none".into(),
+        Some(b) => hex_bytes(&b),
+    }
+}
+
+/// every read-only query of the API on one value, as text
+pub fn impl_query(q: &str, bs: &Bitstr, big: bool) -> String {
+    let o = if big { BIG } else { LITTLE };
+    match q {
+        "uint" => bs.to_uint(o).to_string(),
+        "int" => bs.to_int(o).to_string(),
+        "hex" => format!("x{}", bs.to_hex_string()),
+        "bytes" => opt_bytes(bs.to_bytes()),
+        "bytestr" => opt_bytes(bs.bytestr().map(|c| c.into_owned())),
+        "slice" => opt_bytes(bs.slice().map(|s| s.to_vec())),
+        "pad" => hex_bytes(&bs.to_bytes_with_padding()),
+        "iter8" => format!("i{}", bs.iter8().map(|(v, n)| format!("{}:{}", v, n)).collect::<Vec<_>>().join(",")),
+        "bits" => format!("b{}", bs.bits().map(|b| if b == 1 { '1' } else if b == 0 { '0' } else { '?' }).collect::<String>()),
+        "f32" => format!("{:08x}", bs.to_f32(o).to_bits()),
+        "f64" => format!("{:016x}", bs.to_f64(o).to_bits()),
+        "flags" => (if bs.is_bytestr() { "bytestr" } else { "bits" }).to_string(),
+        _ => unreachable!(),
+    }
+}
+
+/// the same queries on the reference bit vector (`aligned` = the handle starts on a byte boundary,
+/// which `slice()` documents as its precondition)
+pub fn ref_query(q: &str, bits: &[bool], big: bool, aligned: bool) -> String {
+    match q {
+        "uint" => ref_uint(bits, big).to_string(),
+        "int" => ref_int(bits, big).to_string(),
+        "hex" => format!("x{}", ref_hex(bits)),
+        "bytes" | "bytestr" => opt_bytes(if bits.len() % 8 == 0 { Some(ref_pad(bits)) } else { None }),
+        "slice" => opt_bytes(if bits.len() % 8 == 0 && aligned { Some(ref_pad(bits)) } else { None }),
+        "pad" => hex_bytes(&ref_pad(bits)),
+        "iter8" => format!("i{}", ref_groups(bits).iter().map(|(v, n)| format!("{}:{}", v, n)).collect::<Vec<_>>().join(",")),
+        "bits" => format!("b{}", bits.iter().map(|b| if *b { '1' } else { '0' }).collect::<String>()),
+        "f32" => format!("{:08x}", ref_float(bits, 4, big)),
+        "f64" => format!("{:016x}", ref_float(bits, 8, big)),
+        "flags" => (if bits.len() % 8 == 0 { "bytestr" } else { "bits" }).to_string(),
+        _ => unreachable!(),
+    }
+}
+
+pub const QUERIES: &[&str] = &["uint", "int", "hex", "bytes", "bytestr", "slice", "pad", "iter8", "bits", "f32", "f64", "flags"];
+const ORDERED: &[&str] = &["uint", "int", "f32", "f64"];
+
+struct Slot {
+    bs: Bitstr,
+    rf: Vec<bool>,
+}
+
+struct Seq {
+    pool: Vec<Option<Slot>>,
+    ops: Vec<String>,
+    ans: Vec<String>,
+    dead: bool,
+}
+
+impl Seq {
+    fn live(&self) -> Vec<usize> {
+        (0..self.pool.len()).filter(|i| self.pool[*i].is_some()).collect()
+    }
+    fn state(&self) -> String {
+        self.pool
+            .iter()
+            .enumerate()
+            .filter_map(|(k, s)| s.as_ref().map(|s| format!("{}:{}:{}:{}", k, s.bs.start(), s.bs.len(), pack_hex(&impl_bits(&s.bs)))))
+            .collect::<Vec<_>>()
+            .join(",")
+    }
+    fn push(&mut self, bs: Bitstr, rf: Vec<bool>) -> String {
+        self.pool.push(Some(Slot { bs, rf }));
+        format!("+{}", self.pool.len() - 1)
+    }
+    /// after every operation: every live handle still denotes its reference bits
+    fn check_all(&mut self, ctx: &mut Ctx, op: &str) {
+        for k in 0..self.pool.len() {
+            if let Some(s) = &self.pool[k] {
+                let got = impl_bits(&s.bs);
+                let ok = got == s.rf && s.bs.len() == s.rf.len();
+                let ops = &self.ops;
+                ctx.check(
+                    ok,
+                    || format!("C04 {}   [after `{}`: content of handle {}]", ops.join(" ; "), op, k),
+                    || format!("{}:{}", s.rf.len(), pack_hex(&s.rf)),
+                    || format!("{}:{}", s.bs.len(), pack_hex(&got)),
+                );
+            }
+        }
+    }
+    fn finish_op(&mut self, ctx: &mut Ctx, op: String, res: Option<String>, expect: Option<String>) {
+        self.ops.push(op.clone());
+        match res {
+            None => {
+                self.ans.push("panic".into());
+                self.dead = true;
+                let ops = &self.ops;
+                ctx.oracle_fail(format!("C04 {}", ops.join(" ; ")), "no panic".into(), "panic".into());
+            }
+            Some(r) => {
+                if let Some(e) = expect {
+                    let ops = &self.ops;
+                    ctx.check(r == e, || format!("C04 {}   [result of `{}`]", ops.join(" ; "), op), || e.clone(), || r.clone());
+                }
+                self.check_all(ctx, &op);
+                self.ans.push(format!("{}|{}", r, self.state()));
+            }
+        }
+    }
+}
+
+fn rand_bytes(ctx: &mut Ctx, n: usize) -> Vec<u8> {
+    (0..n).map(|_| match ctx.rng.below(8) { 0 => 0, 1 => 0xff, _ => ctx.rng.next_u64() as u8 }).collect()
+}
+
+fn rand_len_bytes(ctx: &mut Ctx) -> usize {
+    match ctx.rng.below(10) {
+        0 => 0,
+        1..=5 => 1 + ctx.rng.below(6),
+        6..=7 => 17 + ctx.rng.below(3), // room for 127/128/129-bit slices at any alignment
+        _ => ctx.rng.below(41),
+    }
+}
+
+/// a sub-range [a,b) of [start,end]: alignments uniform, lengths small mostly, 127/128/129 when they fit
+fn rand_range(ctx: &mut Ctx, start: usize, end: usize) -> (usize, usize) {
+    let len = end - start;
+    let want = match ctx.rng.below(10) {
+        0 => 0,
+        1 => *ctx.rng.pick(&[127usize, 128, 129]),
+        2..=6 => ctx.rng.below(34),
+        _ => ctx.rng.below(len + 1),
+    }
+    .min(len);
+    let a = start + ctx.rng.below(len - want + 1);
+    (a, a + want)
+}
+
+fn order(ctx: &mut Ctx) -> bool {
+    ctx.rng.bool()
+}
+
+fn text_hex(s: &str) -> String {
+    if s.is_empty() { "-".into() } else { crate::canon::hex(s.as_bytes()) }
+}
+
+fn apply(ctx: &mut Ctx, sq: &mut Seq, kind: &str) {
+    let live = sq.live();
+    let malformed = ctx.rng.chance(12);
+    if malformed {
+        ctx.tag("stream:malformed-args");
+    }
+    macro_rules! pick {
+        () => {{
+            if live.is_empty() {
+                return;
+            }
+            *ctx.rng.pick(&live)
+        }};
+    }
+    match kind {
+        "new" | "static" => {
+            let n = rand_len_bytes(ctx);
+            let bytes = rand_bytes(ctx, n);
+            let rf = bits_of_bytes(&bytes);
+            let op = format!("{} {}", kind, hex_bytes(&bytes));
+            let bs = if kind == "new" {
+                Bitstr::from(bytes)
+            } else {
+                let st: &'static [u8] = Box::leak(bytes.into_boxed_slice());
+                Bitstr::from(st)
+            };
+            let r = sq.push(bs, rf);
+            sq.finish_op(ctx, op, Some(r), None);
+        }
+        "empty" => {
+            let r = sq.push(Bitstr::new(), vec![]);
+            sq.finish_op(ctx, "empty".into(), Some(r), None);
+        }
+        "hexstr" => {
+            let digits = b"0123456789abcdefABCDEF";
+            let n = ctx.rng.below(20);
+            let mut s = String::new();
+            for _ in 0..n {
+                match ctx.rng.below(12) {
+                    0 => s.push(*ctx.rng.pick(&[' ', '\t', '\n', '\r', '\x0c'])),
+                    1 if malformed => s.push(*ctx.rng.pick(&['g', 'x', '-', 'é', '\x0b', '_'])),
+                    _ => s.push(*ctx.rng.pick(digits) as char),
+                }
+            }
+            let op = format!("hexstr {}", text_hex(&s));
+            // reference: 4 bits per digit
+            let mut rf = Vec::new();
+            let mut err = None;
+            for (pos, c) in s.chars().enumerate() {
+                if matches!(c, ' ' | '\t' | '\n' | '\r' | '\x0c') {
+                    continue;
+                }
+                match c.to_digit(16) {
+                    Some(d) => (0..4).rev().for_each(|i| rf.push((d >> i) & 1 == 1)),
+                    None => {
+                        err = Some(pos);
+                        break;
+                    }
+                }
+            }
+            let r = crate::guarded(|| Bitstr::from_hex_str(&s));
+            let (res, exp) = match (r, err) {
+                (None, _) => (None, None),
+                (Some(Ok(bs)), e) => {
+                    let r = sq.push(bs, rf);
+                    (Some(r.clone()), Some(if let Some(p) = e { format!("err:{}", p) } else { r }))
+                }
+                (Some(Err(p)), e) => (Some(format!("err:{}", p)), Some(if let Some(q) = e { format!("err:{}", q) } else { "ok".into() })),
+            };
+            sq.finish_op(ctx, op, res, exp);
+        }
+        "binstr" => {
+            let n = ctx.rng.below(30);
+            let mut s = String::new();
+            for _ in 0..n {
+                match ctx.rng.below(12) {
+                    0 => s.push(*ctx.rng.pick(&[' ', '\t', '\n'])),
+                    1 if malformed => s.push(*ctx.rng.pick(&['2', 'x', '-'])),
+                    _ => s.push(if ctx.rng.bool() { '1' } else { '0' }),
+                }
+            }
+            let op = format!("binstr {}", text_hex(&s));
+            let mut rf = Vec::new();
+            let mut err = None;
+            for (pos, c) in s.chars().enumerate() {
+                match c {
+                    ' ' | '\t' | '\n' => {}
+                    '0' => rf.push(false),
+                    '1' => rf.push(true),
+                    _ => {
+                        err = Some(pos);
+                        break;
+                    }
+                }
+            }
+            let r = crate::guarded(|| BitvecBuilder::from_bin_str(&s));
+            let (res, exp) = match (r, err) {
+                (None, _) => (None, None),
+                (Some(Ok(bs)), e) => {
+                    let r = sq.push(bs, rf);
+                    (Some(r.clone()), Some(if let Some(p) = e { format!("err:{}", p) } else { r }))
+                }
+                (Some(Err(p)), e) => (Some(format!("err:{}", p)), Some(if let Some(q) = e { format!("err:{}", q) } else { "ok".into() })),
+            };
+            sq.finish_op(ctx, op, res, exp);
+        }
+        "clone" => {
+            let i = pick!();
+            let s = sq.pool[i].as_ref().unwrap();
+            let (bs, rf) = (s.bs.clone(), s.rf.clone());
+            let r = sq.push(bs, rf);
+            sq.finish_op(ctx, format!("clone {}", i), Some(r), None);
+        }
+        "drop" => {
+            let i = pick!();
+            sq.pool[i] = None;
+            sq.finish_op(ctx, format!("drop {}", i), Some("ok".into()), None);
+        }
+        "read" | "peek" => {
+            let i = pick!();
+            let len = sq.pool[i].as_ref().unwrap().rf.len();
+            let n = if malformed {
+                *ctx.rng.pick(&[len + 1, len + 8, usize::MAX, usize::MAX - 3, 1usize << 63])
+            } else {
+                let (a, b) = rand_range(ctx, 0, len);
+                b - a
+            };
+            let op = format!("{} {} {}", kind, i, n);
+            let slot = sq.pool[i].as_mut().unwrap();
+            let r = if kind == "read" { crate::guarded(|| slot.bs.read(n)) } else { crate::guarded(|| slot.bs.peek(n)) };
+            let exp_some = n <= len;
+            match r {
+                None => sq.finish_op(ctx, op, None, None),
+                Some(None) => sq.finish_op(ctx, op, Some("none".into()), Some(if exp_some { "some".into() } else { "none".into() })),
+                Some(Some(bs)) => {
+                    let rf: Vec<bool> = if exp_some { slot.rf[..n].to_vec() } else { vec![] };
+                    if kind == "read" && exp_some {
+                        slot.rf = slot.rf[n..].to_vec();
+                    }
+                    let r = sq.push(bs, rf);
+                    sq.finish_op(ctx, op, Some(r.clone()), Some(if exp_some { r } else { "none".into() }));
+                }
+            }
+        }
+        "seek" | "substr" | "split" => {
+            let i = pick!();
+            let (start, end) = {
+                let s = sq.pool[i].as_ref().unwrap();
+                (s.bs.start(), s.bs.end())
+            };
+            let (a, b) = if malformed {
+                match ctx.rng.below(5) {
+                    0 => (end + 1, end + 1),
+                    1 => (start.wrapping_sub(1), end),
+                    2 => (end, start),
+                    3 => (start, end + 1),
+                    _ => (usize::MAX, usize::MAX),
+                }
+            } else {
+                rand_range(ctx, start, end)
+            };
+            let slot = sq.pool[i].as_ref().unwrap();
+            let rf = slot.rf.clone();
+            match kind {
+                "seek" => {
+                    let op = format!("seek {} {}", i, a);
+                    let r = crate::guarded(|| slot.bs.seek(a));
+                    let valid = start <= a && a <= end;
+                    match r {
+                        None => sq.finish_op(ctx, op, None, None),
+                        Some(None) => sq.finish_op(ctx, op, Some("none".into()), Some(if valid { "some".into() } else { "none".into() })),
+                        Some(Some(bs)) => {
+                            let nrf = if valid { rf[a - start..].to_vec() } else { vec![] };
+                            let r = sq.push(bs, nrf);
+                            sq.finish_op(ctx, op, Some(r.clone()), Some(if valid { r } else { "none".into() }));
+                        }
+                    }
+                }
+                "substr" => {
+                    let op = format!("substr {} {} {}", i, a, b);
+                    let r = crate::guarded(|| slot.bs.substr(a, b));
+                    let valid = start <= a && a <= b && b <= end;
+                    match r {
+                        None => sq.finish_op(ctx, op, None, None),
+                        Some(None) => sq.finish_op(ctx, op, Some("none".into()), Some(if valid { "some".into() } else { "none".into() })),
+                        Some(Some(bs)) => {
+                            let nrf = if valid { rf[a - start..b - start].to_vec() } else { vec![] };
+                            let r = sq.push(bs, nrf);
+                            sq.finish_op(ctx, op, Some(r.clone()), Some(if valid { r } else { "none".into() }));
+                        }
+                    }
+                }
+                _ => {
+                    let k = if malformed { *ctx.rng.pick(&[end - start + 1, usize::MAX, usize::MAX - start]) } else { a - start };
+                    let op = format!("split {} {}", i, k);
+                    let r = crate::guarded(|| slot.bs.split_at(k));
+                    let valid = k <= end - start;
+                    match r {
+                        None => sq.finish_op(ctx, op, None, None),
+                        Some(None) => sq.finish_op(ctx, op, Some("none".into()), Some(if valid { "some".into() } else { "none".into() })),
+                        Some(Some((l, rr))) => {
+                            let (lf, rf2) = if valid { (rf[..k].to_vec(), rf[k..].to_vec()) } else { (vec![], vec![]) };
+                            let r1 = sq.push(l, lf);
+                            let r2 = sq.push(rr, rf2);
+                            let r = format!("{}{}", r1, r2);
+                            sq.finish_op(ctx, op, Some(r.clone()), Some(if valid { r } else { "none".into() }));
+                        }
+                    }
+                }
+            }
+        }
+        "detach" | "invert" => {
+            let i = pick!();
+            let Slot { bs, rf } = sq.pool[i].take().unwrap();
+            let old_start = bs.start();
+            let op = format!("{} {}", kind, i);
+            let r = if kind == "detach" { crate::guarded(move || bs.detach()) } else { crate::guarded(move || bs.invert()) };
+            match r {
+                None => sq.finish_op(ctx, op, None, None),
+                Some(nb) => {
+                    ctx.tag(if nb.start() == old_start && old_start % 8 != 0 { "detach:in-place-unaligned" } else if nb.start() == old_start && old_start != 0 { "detach:in-place-offset" } else { "detach:start0" });
+                    let nrf = if kind == "detach" { rf } else { rf.iter().map(|b| !b).collect() };
+                    sq.pool[i] = Some(Slot { bs: nb, rf: nrf });
+                    sq.finish_op(ctx, op, Some("ok".into()), None);
+                }
+            }
+        }
+        "append" => {
+            let i = pick!();
+            let others: Vec<usize> = live.iter().cloned().filter(|j| *j != i).collect();
+            if others.is_empty() {
+                return;
+            }
+            let j = *ctx.rng.pick(&others);
+            let Slot { bs, rf } = sq.pool[i].take().unwrap();
+            let tail = sq.pool[j].as_ref().unwrap();
+            let fast = bs.is_u8_slice() && tail.bs.is_u8_slice();
+            ctx.tag(if fast { "append:fast-path" } else { "append:slow-path" });
+            let op = format!("append {} {}", i, j);
+            let mut nrf = rf;
+            nrf.extend_from_slice(&tail.rf);
+            let tb = &tail.bs;
+            let r = crate::guarded(move || bs.append(tb));
+            match r {
+                None => sq.finish_op(ctx, op, None, None),
+                Some(nb) => {
+                    sq.pool[i] = Some(Slot { bs: nb, rf: nrf });
+                    sq.finish_op(ctx, op, Some("ok".into()), None);
+                }
+            }
+        }
+        "insert" => {
+            let i = pick!();
+            let others: Vec<usize> = live.iter().cloned().filter(|j| *j != i).collect();
+            if others.is_empty() {
+                return;
+            }
+            let j = *ctx.rng.pick(&others);
+            let Slot { bs, rf } = sq.pool[i].take().unwrap();
+            let len = rf.len();
+            let k = if malformed { *ctx.rng.pick(&[len + 1, usize::MAX, usize::MAX - bs.start()]) } else { ctx.rng.below(len + 1) };
+            let tail = sq.pool[j].as_ref().unwrap();
+            let op = format!("insert {} {} {}", i, k, j);
+            let tb = &tail.bs;
+            let r = crate::guarded(move || bs.insert(k, tb));
+            let valid = k <= len;
+            match r {
+                None => sq.finish_op(ctx, op, None, None),
+                Some(None) => sq.finish_op(ctx, op, Some("none".into()), Some(if valid { "some".into() } else { "none".into() })),
+                Some(Some(nb)) => {
+                    let mut nrf = Vec::new();
+                    if valid {
+                        nrf.extend_from_slice(&rf[..k]);
+                        nrf.extend_from_slice(&tail.rf);
+                        nrf.extend_from_slice(&rf[k..]);
+                    }
+                    sq.pool[i] = Some(Slot { bs: nb, rf: nrf });
+                    sq.finish_op(ctx, op, Some("some".into()), Some(if valid { "some".into() } else { "none".into() }));
+                }
+            }
+        }
+        "eq" => {
+            let i = pick!();
+            // mostly compare against something equal-by-content when one exists
+            let same: Vec<usize> = live.iter().cloned().filter(|j| sq.pool[*j].as_ref().unwrap().rf == sq.pool[i].as_ref().unwrap().rf).collect();
+            let j = if ctx.rng.bool() { *ctx.rng.pick(&same) } else { *ctx.rng.pick(&live) };
+            let (a, b) = (sq.pool[i].as_ref().unwrap(), sq.pool[j].as_ref().unwrap());
+            let exp = a.rf == b.rf;
+            ctx.tag(if a.bs.is_u8_slice() && b.bs.is_u8_slice() { "eq:fast-path" } else { "eq:iter8-path" });
+            let (x, y) = (&a.bs, &b.bs);
+            let r = crate::guarded(|| x.eq_with(y));
+            sq.finish_op(ctx, format!("eq {} {}", i, j), r.map(|b| (if b { "T" } else { "F" }).to_string()), Some((if exp { "T" } else { "F" }).to_string()));
+        }
+        q => {
+            let i = pick!();
+            let big = order(ctx);
+            let s = sq.pool[i].as_ref().unwrap();
+            let op = if ORDERED.contains(&q) { format!("{} {} {}", q, i, if big { "be" } else { "le" }) } else { format!("{} {}", q, i) };
+            let bs = &s.bs;
+            let r = crate::guarded(|| impl_query(q, bs, big));
+            let exp = ref_query(q, &s.rf, big, s.bs.start() % 8 == 0);
+            sq.finish_op(ctx, op, r, Some(exp));
+        }
+    }
+}
+
+const HISTORIES: &[&str] = &["fresh", "slice-parent-alive", "slice-parent-dropped", "static", "static-slice", "append-result", "invert-result", "hex", "bin"];
+
+/// put one value into the pool through the named history
+fn history(ctx: &mut Ctx, sq: &mut Seq, h: &str) {
+    ctx.tag(&format!("history:{}", h));
+    let slice_of_last = |ctx: &mut Ctx, sq: &mut Seq, drop_parent: bool| {
+        let p = sq.pool.len() - 1;
+        let (start, end) = {
+            let s = sq.pool[p].as_ref().unwrap();
+            (s.bs.start(), s.bs.end())
+        };
+        let (a, b) = rand_range(ctx, start, end);
+        ctx.tag(&format!("align:start%8={},end%8={}", a % 8, b % 8));
+        let slot = sq.pool[p].as_ref().unwrap();
+        let bs = slot.bs.substr(a, b).unwrap();
+        let rf = slot.rf[a - start..b - start].to_vec();
+        let r = sq.push(bs, rf);
+        sq.finish_op(ctx, format!("substr {} {} {}", p, a, b), Some(r.clone()), Some(r));
+        if drop_parent {
+            sq.pool[p] = None;
+            sq.finish_op(ctx, format!("drop {}", p), Some("ok".into()), None);
+        }
+    };
+    match h {
+        "fresh" => apply(ctx, sq, "new"),
+        "slice-parent-alive" => {
+            apply(ctx, sq, "new");
+            slice_of_last(ctx, sq, false);
+        }
+        "slice-parent-dropped" => {
+            apply(ctx, sq, "new");
+            slice_of_last(ctx, sq, true);
+        }
+        "static" => apply(ctx, sq, "static"),
+        "static-slice" => {
+            apply(ctx, sq, "static");
+            let dp = ctx.rng.bool();
+            slice_of_last(ctx, sq, dp);
+        }
+        "append-result" => {
+            if sq.live().len() < 2 {
+                apply(ctx, sq, "new");
+                history(ctx, sq, "slice-parent-dropped");
+            }
+            apply(ctx, sq, "append");
+        }
+        "invert-result" => {
+            if sq.live().is_empty() {
+                history(ctx, sq, "slice-parent-dropped");
+            }
+            apply(ctx, sq, "invert");
+        }
+        "hex" => apply(ctx, sq, "hexstr"),
+        _ => apply(ctx, sq, "binstr"),
+    }
+}
+
+const OPS: &[&str] = &[
+    "clone", "drop", "read", "peek", "seek", "substr", "split", "detach", "invert", "append", "append", "append", "insert", "eq", "uint", "int", "hex", "bytes", "bytestr", "slice", "pad", "iter8", "bits", "f32", "f64", "flags", "empty",
+];
+
+fn sequence(ctx: &mut Ctx, max_ops: usize) {
+    let mut sq = Seq { pool: Vec::new(), ops: Vec::new(), ans: Vec::new(), dead: false };
+    let nh = 1 + ctx.rng.below(3);
+    for _ in 0..nh {
+        let h = *ctx.rng.pick(HISTORIES);
+        history(ctx, &mut sq, h);
+        if sq.dead {
+            break;
+        }
+    }
+    let nops = 3 + ctx.rng.below(max_ops);
+    while !sq.dead && sq.ops.len() < nops {
+        if sq.live().len() > 6 {
+            apply(ctx, &mut sq, "drop");
+            continue;
+        }
+        if sq.live().is_empty() || ctx.rng.chance(8) {
+            let h = *ctx.rng.pick(HISTORIES);
+            history(ctx, &mut sq, h);
+            continue;
+        }
+        let k = *ctx.rng.pick(OPS);
+        ctx.tag(&format!("op:{}", k));
+        apply(ctx, &mut sq, k);
+    }
+    ctx.tag(&format!("seq-len:{}", sq.ops.len().min(20)));
+    ctx.case(format!("C04 {}", sq.ops.join(" ; ")), sq.ans.join(" ; "));
+}
+
+// ---------- (b) representation independence, directly ----------
+
+const SITUATIONS: &[&str] = &["fresh-slack", "parent-alive", "parent-dropped", "static", "append-result", "invert-result"];
+
+/// build a handle denoting exactly `bits`, starting at bit alignment `al`, in ownership situation `sit`
+fn build(ctx: &mut Ctx, bits: &[bool], al: usize, sit: &str) -> (Bitstr, Vec<(Bitstr, Vec<bool>)>) {
+    let pre: Vec<bool> = (0..al + 8 * ctx.rng.below(3)).map(|_| ctx.rng.bool()).collect();
+    let post: Vec<bool> = (0..ctx.rng.below(20)).map(|_| ctx.rng.bool()).collect();
+    let embed = |body: &[bool]| -> Vec<u8> {
+        let mut all = pre.clone();
+        all.extend_from_slice(body);
+        all.extend_from_slice(&post);
+        while all.len() % 8 != 0 {
+            all.push(true); // stale bits after the end are ones on purpose
+        }
+        all.chunks(8).map(|c| ref_be(c) as u8).collect()
+    };
+    let a = pre.len();
+    let b = a + bits.len();
+    let mut keep = Vec::new();
+    let v = match sit {
+        "fresh-slack" => {
+            // unique owner, buffer longer than the value, value reached by read()s on the only handle
+            let mut p = Bitstr::from(embed(bits));
+            let _ = p.read(a).unwrap();
+            p.read(bits.len()).unwrap()
+            // p dropped here: the result is the unique owner
+        }
+        "parent-alive" => {
+            let p = Bitstr::from(embed(bits));
+            let s = p.substr(a, b).unwrap();
+            let pb = impl_bits(&p);
+            keep.push((p, pb));
+            s
+        }
+        "parent-dropped" => Bitstr::from(embed(bits)).substr(a, b).unwrap(),
+        "static" => {
+            let st: &'static [u8] = Box::leak(embed(bits).into_boxed_slice());
+            Bitstr::from(st).substr(a, b).unwrap()
+        }
+        "append-result" => {
+            let k = ctx.rng.below(bits.len() + 1);
+            let p = Bitstr::from(embed(&bits[..k]));
+            let head = p.substr(a, a + k).unwrap();
+            drop(p);
+            let al2 = ctx.rng.below(8);
+            let (tb, _) = build(ctx, &bits[k..], al2, "parent-dropped");
+            head.append(&tb)
+        }
+        _ => {
+            let inv: Vec<bool> = bits.iter().map(|x| !x).collect();
+            Bitstr::from(embed(&inv)).substr(a, b).unwrap().invert()
+        }
+    };
+    (v, keep)
+}
+
+fn representation_independence(ctx: &mut Ctx, bits: &[bool], exhaustive: bool) {
+    let mut variants: Vec<(String, Bitstr, Vec<(Bitstr, Vec<bool>)>)> = Vec::new();
+    for al in 0..8 {
+        for sit in SITUATIONS {
+            if !exhaustive && !ctx.rng.chance(40) && !(al == 0 && *sit == "fresh-slack") {
+                continue;
+            }
+            let r = crate::guarded(|| build(ctx, bits, al, sit));
+            match r {
+                Some((v, keep)) => variants.push((format!("{}@{}", sit, al), v, keep)),
+                None => ctx.oracle_fail(format!("repr-indep build {}@{} bits={}", sit, al, pack_hex(bits)), "no panic".into(), "panic".into()),
+            }
+        }
+    }
+    ctx.tag("repr-indep:value");
+    let desc = |name: &str| format!("repr-indep len={} bits={} variant={}", bits.len(), pack_hex(bits), name);
+    // every query answers as the reference does (slice(): only its None/Some-ness may depend on alignment)
+    for (name, v, _) in &variants {
+        for q in QUERIES {
+            for big in [false, true] {
+                if !ORDERED.contains(q) && big {
+                    continue;
+                }
+                let got = crate::guarded(|| impl_query(q, v, big)).unwrap_or_else(|| "panic".into());
+                let exp = ref_query(q, bits, big, v.start() % 8 == 0);
+                ctx.check(got == exp, || format!("{} query={} {}", desc(name), q, if big { "be" } else { "le" }), || exp.clone(), || got.clone());
+            }
+        }
+    }
+    // binary / transforming operations across variants
+    let n = variants.len();
+    for _ in 0..n.min(12) {
+        let (i, j) = (ctx.rng.below(n), ctx.rng.below(n));
+        let (ni, vi, _) = &variants[i];
+        let (nj, vj, _) = &variants[j];
+        let eq = crate::guarded(|| vi.eq_with(vj) && vj.eq_with(vi));
+        ctx.check(eq == Some(true), || format!("{} eq_with {}", desc(ni), nj), || "true".into(), || format!("{:?}", eq));
+        let mut exp = bits.to_vec();
+        exp.extend_from_slice(bits);
+        let ap = crate::guarded(|| impl_bits(&vi.clone().append(vj)));
+        ctx.check(ap.as_ref() == Some(&exp), || format!("{} append {}", desc(ni), nj), || pack_hex(&exp), || ap.clone().map(|x| pack_hex(&x)).unwrap_or("panic".into()));
+        // the operands still denote the same bits
+        let still = impl_bits(vi) == bits && impl_bits(vj) == bits;
+        ctx.check(still, || format!("{} append {} (operands afterwards)", desc(ni), nj), || pack_hex(bits), || format!("{} / {}", pack_hex(&impl_bits(vi)), pack_hex(&impl_bits(vj))));
+        let k = ctx.rng.below(bits.len() + 1);
+        let ins = crate::guarded(|| vi.clone().insert(k, vj).map(|x| impl_bits(&x)));
+        let mut e2 = bits[..k].to_vec();
+        e2.extend_from_slice(bits);
+        e2.extend_from_slice(&bits[k..]);
+        ctx.check(ins == Some(Some(e2.clone())), || format!("{} insert {} {}", desc(ni), k, nj), || pack_hex(&e2), || format!("{:?}", ins.clone().map(|o| o.map(|x| pack_hex(&x)))));
+        let inv = crate::guarded(|| impl_bits(&vi.clone().invert()));
+        let e3: Vec<bool> = bits.iter().map(|x| !x).collect();
+        ctx.check(inv.as_ref() == Some(&e3), || format!("{} invert (of a clone)", desc(ni)), || pack_hex(&e3), || format!("{:?}", inv.clone().map(|x| pack_hex(&x))));
+        let det = crate::guarded(|| impl_bits(&vi.clone().detach()));
+        ctx.check(det.as_deref() == Some(bits), || format!("{} detach (of a clone)", desc(ni)), || pack_hex(bits), || format!("{:?}", det.clone().map(|x| pack_hex(&x))));
+        let sp = crate::guarded(|| vi.split_at(k).map(|(l, r)| (impl_bits(&l), impl_bits(&r))));
+        ctx.check(sp == Some(Some((bits[..k].to_vec(), bits[k..].to_vec()))), || format!("{} split_at {}", desc(ni), k), || "prefix/suffix".into(), || format!("{:?}", sp.is_some()));
+    }
+    // consuming operations on the variant itself (unique-owner paths), last
+    for (name, v, keep) in variants {
+        let which = ctx.rng.below(3);
+        let tail_bits: Vec<bool> = (0..ctx.rng.below(20)).map(|_| ctx.rng.bool()).collect();
+        let tail = super::gen::bitstr_from_bits(&tail_bits);
+        let (got, exp): (Option<Vec<bool>>, Vec<bool>) = match which {
+            0 => (crate::guarded(move || impl_bits(&v.append(&tail))), [bits, &tail_bits[..]].concat()),
+            1 => (crate::guarded(move || impl_bits(&v.invert())), bits.iter().map(|x| !x).collect()),
+            _ => (crate::guarded(move || impl_bits(&v.detach())), bits.to_vec()),
+        };
+        ctx.check(got.as_ref() == Some(&exp), || format!("{} consuming op #{} (0 append,1 invert,2 detach)", desc(&name), which), || pack_hex(&exp), || format!("{:?}", got.clone().map(|x| pack_hex(&x))));
+        // a parent kept alive must be untouched by whatever happened to its slice
+        for (p, pb) in keep {
+            let now = impl_bits(&p);
+            ctx.check(now == pb, || format!("{} parent after consuming op #{}", desc(&name), which), || pack_hex(&pb), || pack_hex(&now));
+        }
+    }
+}
+
+pub fn run(ctx: &mut Ctx) {
+    let nseq = ctx.n;
+    let max_ops = 14;
+    for _ in 0..nseq {
+        sequence(ctx, max_ops);
+    }
+    // representation independence
+    let nvals = if ctx.thorough { nseq / 10 } else { nseq / 25 };
+    for _ in 0..nvals {
+        let len = match ctx.rng.below(10) {
+            0 => *ctx.rng.pick(&[0usize, 1, 7, 8, 9, 127, 128, 129]),
+            1..=6 => ctx.rng.below(40),
+            _ => ctx.rng.below(301),
+        };
+        let bits: Vec<bool> = (0..len).map(|_| ctx.rng.bool()).collect();
+        representation_independence(ctx, &bits, false);
+    }
+    if ctx.thorough {
+        // exhaustive small scope: every length 0..24 × every alignment × every situation
+        for len in 0..=24 {
+            for _ in 0..4 {
+                let bits: Vec<bool> = (0..len).map(|_| ctx.rng.bool()).collect();
+                representation_independence(ctx, &bits, true);
+            }
+        }
+    }
+}
